@@ -16,7 +16,10 @@ RULE = ("cases = (estimator class, hyper-parameters, data set, match-tracking mo
 
 
 GEN_THEOREMS = ["base_match_tracking", "dual_match_tracking", "topo_match_tracking", "cviart_match_tracking",
-                "bayes_match_tracking", "operator_strict", "base_match_bin", "bayes_match_bin"]
+                "bayes_match_tracking", "operator_strict", "base_match_bin", "bayes_match_bin",
+                # the search loop of BaseART.step_fit, translated statement by statement (ctrans.py -> ArtGen/Control.lean)
+                "Control.loop_follows_search", "Control.body_spec", "Control.activations_spec", "Control.step_fit_refines",
+                "Control.scalar_contract", "Control.scalar_step_fit"]
 
 
 def prepare(ctx):
@@ -24,7 +27,8 @@ def prepare(ctx):
     orientation of the binary match test are regenerated from the source and proved equal to the model's"""
     from .gen_tie import gen_prepare
     gen_prepare(ctx, GEN_THEOREMS, "_match_tracking of BaseART / BayesianART / DualVigilanceART / TopoART / CVIART, "
-                "_match_tracking_operator, match_criterion_bin of BaseART and BayesianART")
+                "_match_tracking_operator, match_criterion_bin of BaseART and BayesianART; BaseART.step_fit (control flow) "
+                "= the model's stepFit under the kernel contract (Control.step_fit_refines)")
 
 
 def build_est(r, cls, d, fusion_ok=True):
